@@ -152,12 +152,127 @@ def gen_fragment(rng):
 ALPHABET = ["double", "c", "x", "_", "0", "1", "2", "6", ".", "e", "+", "f", " ", "(", ",", "\""]
 
 
+class Untranslatable(Exception):
+    pass
+
+
+def _translate_abi():
+    """The two sides of the by-value interface of a compiled kernel: the parameter list of KERNEL_NAME in
+    kernel_iq.c (every `double` there becomes the real type of the precision: conv_double of C15.Model) and the
+    ctypes argtypes DllModel._load_dll declares for that precision.  Returns (c_params, {prec: argtypes}) as lists of
+    Coq constructor texts."""
+    import ast
+    import re
+    from . import ctrans
+    src = ctrans.strip_comments(open(os.path.join(common.REPO, "sasmodels", "kernel_iq.c")).read())
+    m = re.search(r"\bvoid\s+KERNEL_NAME\s*\((.*?)\)\s*\{", src, re.S)
+    if not m:
+        raise Untranslatable("KERNEL_NAME not found")
+    cpar = []
+    for prm in m.group(1).split(","):
+        words = prm.replace("*", " * ").split()
+        words = [w for w in words if w not in ("const", "pglobal")]
+        if "*" in words:
+            cpar.append("KPtr")
+        elif words[:1] == ["int32_t"] and len(words) == 2:
+            cpar.append("KInt32")
+        elif words[:1] == ["double"] and len(words) == 2:
+            cpar.append("KReal p")
+        else:
+            raise Untranslatable("kernel parameter %r" % prm.strip())
+    tree = ast.parse(open(os.path.join(common.REPO, "sasmodels", "kerneldll.py")).read())
+    fn = [f for c in tree.body if isinstance(c, ast.ClassDef) and c.name == "DllModel" for f in c.body if isinstance(f, ast.FunctionDef) and f.name == "_load_dll"]
+    if len(fn) != 1:
+        raise Untranslatable("DllModel._load_dll not found")
+    CT = {"ct.c_int32": "KInt32", "ct.c_void_p": "KPtr", "ct.c_float": "KReal P32", "ct.c_double": "KReal P64", "ct.c_longdouble": "KReal P128"}
+    out = {}
+    for prec, dname, size in (("P32", "generate.F32", 4), ("P64", "generate.F64", 8), ("P128", "generate.F128", 16)):
+        env = {}
+
+        def ev(e):
+            t = ast.unparse(e)
+            if t in CT:
+                return CT[t]
+            if isinstance(e, ast.Name) and e.id in env:
+                return env[e.id]
+            if t == "self.dtype.itemsize":
+                return size
+            if isinstance(e, ast.Constant) and isinstance(e.value, int):
+                return e.value
+            if isinstance(e, ast.IfExp):
+                return ev(e.body) if truth(e.test) else ev(e.orelse)
+            if isinstance(e, ast.List):
+                return [ev(x) for x in e.elts]
+            if isinstance(e, ast.BinOp) and isinstance(e.op, ast.Add):
+                a, b = ev(e.left), ev(e.right)
+                if isinstance(a, list) and isinstance(b, list):
+                    return a + b
+            if isinstance(e, ast.BinOp) and isinstance(e.op, ast.Mult):
+                a, b = ev(e.left), ev(e.right)
+                if isinstance(a, list) and isinstance(b, int):
+                    return a * b
+            raise Untranslatable("expression %s" % t)
+
+        def truth(e):
+            if isinstance(e, ast.Compare) and len(e.ops) == 1:
+                l, r = ast.unparse(e.left), ast.unparse(e.comparators[0])
+                if isinstance(e.ops[0], (ast.Eq, ast.NotEq)) and "self.dtype" in (l, r):
+                    other = r if l == "self.dtype" else l
+                    if other not in ("generate.F16", "generate.F32", "generate.F64", "generate.F128"):
+                        raise Untranslatable("comparison %s" % ast.unparse(e))
+                    return (other == dname) == isinstance(e.ops[0], ast.Eq)
+                a, b = ev(e.left), ev(e.comparators[0])
+                if isinstance(a, int) and isinstance(b, int):
+                    ops = {ast.Lt: a < b, ast.LtE: a <= b, ast.Gt: a > b, ast.GtE: a >= b, ast.Eq: a == b, ast.NotEq: a != b}
+                    return ops[type(e.ops[0])]
+            raise Untranslatable("condition %s" % ast.unparse(e))
+        got = None
+        for st in fn[0].body:
+            if isinstance(st, ast.Assign) and len(st.targets) == 1 and isinstance(st.targets[0], ast.Name):
+                try:
+                    env[st.targets[0].id] = ev(st.value)
+                except Untranslatable:
+                    env.pop(st.targets[0].id, None)
+            elif isinstance(st, ast.For) and ast.unparse(st.iter) == "self._kernels" and [ast.unparse(b) for b in st.body] == ["%s.argtypes = argtypes" % ast.unparse(st.target)]:
+                got = env.get("argtypes")
+        if not isinstance(got, list) or not all(isinstance(x, str) for x in got):
+            raise Untranslatable("argtypes of the kernels for %s" % prec)
+        out[prec] = got
+    return cpar, out
+
+
+def gen():
+    """Regenerate Gen/C15_abi.v from kernel_iq.c (KERNEL_NAME parameter list) and kerneldll.py (DllModel._load_dll)."""
+    lines = ["(* GENERATED by harness/c15.py from sasmodels/kernel_iq.c (parameter list of KERNEL_NAME) and sasmodels/kerneldll.py (DllModel._load_dll) *)",
+             "From Coq Require Import List.", "Import ListNotations.", "From SM Require Import C15.Model C15.Abi.", ""]
+    note = None
+    try:
+        cpar, at = _translate_abi()
+    except (Untranslatable, OSError, SyntaxError) as exc:
+        note = "%s: %s" % (type(exc).__name__, exc)
+        cpar = ["KReal p"]
+        at = {k: ["KReal " + k] for k in ("P32", "P64", "P128")}
+    lines.append("Definition abi_translated : bool := %s." % ("true" if note is None else "false"))
+    if note:
+        lines.append("(* not translated: %s *)" % note.replace("*)", "* )"))
+    lines += ["(* the parameters of the kernel entry point, every `double` being the real type of the precision the source is converted to *)",
+              "Definition code_kernel_params (p : prec) : list ckind := [%s]." % "; ".join(cpar),
+              "(* what ctypes is told about them *)",
+              "Definition code_argtypes (p : prec) : list ckind :=",
+              "  match p with"] + ["  | %s => [%s]" % (k, "; ".join(at[k])) for k in ("P32", "P64", "P128")] + ["  end.", ""]
+    common.write_if_changed(os.path.join(common.THEORIES, "Gen", "C15_abi.v"), "\n".join(lines))
+    return note
+
+
 def main(run):
     from sasmodels import generate
     from sasmodels.core import load_model_info, parse_dtype
     rng = random.Random(run.seed * 4099 + 15)
     thorough = run.tier == "thorough"
-    run.prove(["C15/Property.v"])
+    note = []
+    run.prove(["C15/Property.v"], gen=lambda: note.append(gen()))
+    run.notes.append(("the by-value interface of the compiled kernels not translated (%s): C15_code_abi is vacuous in this run" % note[0]) if note and note[0] else
+                     "the parameter list of KERNEL_NAME (kernel_iq.c) and the ctypes argtypes of DllModel._load_dll read from the current text (Gen/C15_abi.v): at every precision each argument is declared with the C type the converted source gives it (C15_code_abi)")
     work = run.scratch.sub("c15")
     exe = None
     try:
